@@ -27,7 +27,7 @@ RULE = (
     "two case families. wiring: (type tree depth<=3 with copyable/linear/affine leaves, struct|tuple nodes of arity 0-4, "
     "%ret flag, script of 1-12 dfg[place]=wire / dfg[place] ops on sub-places; 70% of scripts respect ownership) run on the real "
     "DFContainer and on the Lean model; non-trivial = some struct/tuple place is read after a write (packing happens). "
-    "program: corpus seeds + generated Guppy programs (struct/tuple/linear stress generator + general typed generator: control "
+    "program: corpus seeds + generated Guppy programs (struct/tuple/linear stress generator + implicit-drop generator over all affine type shapes + general typed generator: control "
     "flow, tuples, structs across loops, generics, comptime args, closures, qubits through branches, arrays, affine drops, early "
     "returns) lowered by the real compiler and structurally validated; rejected programs (GuppyError) are not cases; "
     "non-trivial = accepted program; distinct by sha1 of the source"
@@ -53,7 +53,7 @@ MANIFEST = {
     "(DFContainer is a correct store; false before repair 32e45a7). The model is tied to compiler/core.py on every "
     "run by same-input correspondence against the real DFContainer (quick 400 / thorough 12000 scripts) with an independent oracle on the "
     "real Hugr. The rest of C01 (whole programs lower to structurally valid HUGR) is NOT proved: it is searched by lowering generated accepted "
-    "programs with the real compiler and checking them with a harness-side structural validator (quick ~120 / thorough ~2400 programs + ~580 programs of the repo test-suite).",
+    "programs with the real compiler and checking them with a harness-side structural validator (quick ~180 / thorough ~3300 programs + ~580 programs of the repo test-suite).",
     "level_note": "partial. Proof level applies to the pack/unpack wiring discipline only. Port typing, linear-once, acyclicity, CFG row agreement, "
     "order edges, static edges of whole programs are checked by sampling with my own validator (no HUGR validator accepts /repo's output here). "
     "Trusted: Lean kernel + 3 std axioms; the validator; hugr-py builders; the generators' coverage.",
